@@ -12,6 +12,8 @@ import (
 	logging "github.com/ipfs/go-log/v2"
 
 	"verif/harness/internal/c09"
+	"verif/harness/internal/c12"
+	"verif/harness/internal/c19"
 	"verif/harness/internal/fw"
 )
 
@@ -71,6 +73,15 @@ func main() {
 	case "C09":
 		res.Rule = "bodies generated from a JSON-RPC grammar and its mutations; distinct = distinct (kind, canonical reply, invocation list); non-trivial = a handler ran, or the reply has more than one token, or status != 200"
 		err = c09.Run(d, res, *seed, n(4000, 80000), corpus)
+	case "C12":
+		res.Rule = "exhaustive: 6 formatters x 8 registration sets x 4 alias tables x every candidate method string x param variants, plus client/server agreement per configuration; distinct = distinct (formatter, registrations, aliases, method, variant); non-trivial = resolves to a handler or a handler ran"
+		if *replay != "" {
+			*seed = -1
+		}
+		err = c12.Run(d, res, *seed, thorough, corpus)
+	case "C19":
+		res.Rule = "exhaustive: 10 default sets x 10 caller sets x {attached, not} x 3 required permissions x 2 method shapes through the real PermissionedProxy, and 14 Authorization header forms x 6 token query forms through the real auth.Handler; every case is distinct and non-trivial (a permission decision is taken)"
+		err = c19.Run(d, res)
 	default:
 		err = fmt.Errorf("unknown property %s", prop)
 	}
